@@ -63,6 +63,9 @@ fn closure(n: usize, adj: &[Vec<bool>], roots: &[usize]) -> BTreeSet<usize> {
 
 const DIRS: [&str; 12] = ["zeta", "alpha/one", "mid", "deep/er/two", "beta", "alpha/two", "omega", "k", "deep/three", "a0", "zz/y", "m/n"];
 
+/// sibling directories whose names are string prefixes of one another (none is nested in another)
+const DIRS_PREFIX: [&str; 12] = ["bp", "bp1", "bp10", "bp1-x", "java", "java-function", "jav", "b", "bp100", "java_fn", "bp1.0", "j"];
+
 fn id_of(i: usize) -> String {
     format!("vp/n{i}")
 }
@@ -71,7 +74,17 @@ fn id_of(i: usize) -> String {
 fn materialise(root: &Path, n: usize, adj: &[Vec<bool>], variant: u64, dangling: Option<usize>) {
     fs::create_dir_all(root).unwrap();
     for i in 0..n {
-        let d = root.join(DIRS[(i + (variant as usize / 4 % 2) * 5) % DIRS.len()]);
+        // variant bit 4: prefix-related sibling names; bit 5: every third buildpack directory is a symbolic link to a directory
+        // that the walk does not see otherwise (it lives in a hidden directory)
+        let names = if variant >> 4 & 1 == 1 { &DIRS_PREFIX } else { &DIRS };
+        let mut d = root.join(names[(i + (variant as usize / 4 % 2) * 5) % names.len()]);
+        if variant >> 5 & 1 == 1 && i % 3 == 1 {
+            let real = root.join(".store").join(format!("n{i}"));
+            fs::create_dir_all(&real).unwrap();
+            fs::create_dir_all(d.parent().unwrap()).unwrap();
+            std::os::unix::fs::symlink(&real, &d).unwrap();
+            d = real;
+        }
         fs::create_dir_all(&d).unwrap();
         let mut deps: Vec<usize> = (0..n).filter(|j| adj[i][*j]).collect();
         if variant & 1 == 1 {
@@ -196,8 +209,12 @@ fn check_dag(root: &Path, n: usize, adj: &[Vec<bool>], variant: u64, sels: &[Vec
     ids.sort();
     let mut want_ids: Vec<String> = (0..n).map(id_of).collect();
     want_ids.sort();
-    if ids != want_ids && tally.violations.len() < 5 {
-        tally.violations.push(json!({"sig": "load-nodes", "what": format!("graph holds buildpacks {ids:?}, workspace has {want_ids:?}"), "case": describe(json!(null))}));
+    if ids != want_ids {
+        if tally.violations.len() < 5 {
+            tally.violations.push(json!({"sig": "load-nodes", "what": format!("graph holds buildpacks {ids:?}, workspace has {want_ids:?}"), "case": describe(json!(null))}));
+        }
+        let _ = fs::remove_dir_all(root);
+        return;
     }
     let mut degs: Vec<(usize, usize)> = (0..n).map(|i| ((0..n).filter(|j| adj[*j][i]).count(), (0..n).filter(|j| adj[i][*j]).count())).collect();
     degs.sort_unstable();
@@ -273,7 +290,7 @@ pub fn run(args: &[String]) {
             if counter % nshards != shard {
                 continue;
             }
-            let variant = (counter / nshards + seed) % 16;
+            let variant = (counter / nshards + seed) % 64;
             check_dag(&work.join(format!("d{counter}")), n, &adj, variant, &sels, &mut tally);
         }
     }
@@ -300,7 +317,7 @@ pub fn run(args: &[String]) {
             }
         }
         let sels = selections(n, Some((40, &mut rng)));
-        check_dag(&work.join(format!("r{r}")), n, &adj, rng.below(16), &sels, &mut tally);
+        check_dag(&work.join(format!("r{r}")), n, &adj, rng.below(64), &sels, &mut tally);
     }
     // dangling dependency
     let mut dangling_checked = 0;
@@ -319,7 +336,7 @@ pub fn run(args: &[String]) {
         }
         let who = rng.below(n as u64) as usize;
         let root = work.join(format!("m{r}"));
-        materialise(&root, n, &adj, rng.below(16), Some(who));
+        materialise(&root, n, &adj, rng.below(64), Some(who));
         dangling_checked += 1;
         match build_libcnb_buildpacks_dependency_graph(&root) {
             Ok(_) => {
